@@ -704,6 +704,67 @@ func (g c17G) call(fns []c17Fn, kind string) c17Case {
 }
 
 // ---------------------------------------------------------------------------
+// generator of calls of the higher-order builtins with small bounds
+
+// higher builds one call of a builtin that runs callbacks (each, peach with and
+// without a worker bound, keep-if, order with &key / &less-than, run-parallel),
+// with a callback that outputs, throws, breaks, continues or returns, on 0..100
+// inputs (more inputs than workers, more values than a channel buffer holds),
+// optionally followed by a stage that stops reading.
+func (g c17G) higher() c17Case {
+	cb := func(l string) string { return g.of(l, c17FnSrc) }
+	n := g.of("n", []string{"0", "1", "2", "2", "3", "3", "5", "33", "40", "100"})
+	input, prefix := "[(range "+n+")]", ""
+	if g.n("piped", 0, 2) == 0 {
+		input, prefix = "", "range "+n+" | "
+	}
+	var name, src string
+	switch g.n("tmpl", 0, 9) {
+	case 0, 1, 2:
+		name = "peach-bounded"
+		src = "peach &num-workers=" + g.of("w", []string{"1", "1", "2", "2", "3", "4", "(num 1)", "(num 2)", "32", "inf", "(num +inf)"}) + " " + cb("cb") + " " + input
+	case 3:
+		name = "peach"
+		src = "peach " + cb("cb") + " " + input
+	case 4:
+		name = "each"
+		src = "each " + cb("cb") + " " + input
+	case 5:
+		name = "keep-if"
+		src = "keep-if " + cb("cb") + " " + input
+	case 6:
+		name = "order-key"
+		src = "order &key=" + cb("cb") + " " + input
+	case 7:
+		name = "order-less-than"
+		src = "order &less-than=" + cb("cb") + " " + input
+	case 8:
+		name = "run-parallel"
+		src, prefix = "run-parallel", ""
+		for i, k := 0, g.n("nfn", 1, 4); i < k; i++ {
+			src += " " + cb("cbp")
+		}
+	default:
+		name = "nested"
+		src = "peach &num-workers=" + g.of("w", []string{"1", "2", "3"}) + " {|x| each " + cb("cb") + " [$x $x] } " + input
+	}
+	src = prefix + src
+	switch g.n("wrap", 0, 7) {
+	case 0:
+		src += " | nop"
+	case 1:
+		src += " | take 1"
+	case 2:
+		src += " | fail reader"
+	case 3:
+		src = "var r = ?(" + src + ")"
+	case 4:
+		src = "for i [1 2 3] { " + src + " }"
+	}
+	return c17Case{Kind: "call", Fn: "higher:" + name, Src: vs.B(src)}
+}
+
+// ---------------------------------------------------------------------------
 // generator of redirection forms
 
 var (
@@ -993,6 +1054,9 @@ func c17Class(c c17Case) (string, bool) {
 	case "redir":
 		return "redir/" + c.Fn, true
 	}
+	if strings.HasPrefix(c.Fn, "higher:") {
+		return c.Fn, true
+	}
 	ns := "builtin"
 	if i := strings.IndexByte(c.Fn, ':'); i > 0 {
 		ns = c.Fn[:i]
@@ -1036,6 +1100,14 @@ func init() {
 			c17Known(c17KeyNilColl, "call", "use flag; flag:parse [] [$nil]"),
 			c17Known(c17KeyRandint, "call", "randint -9223372036854775808 1"),
 		},
+	})
+	vs.Register(vs.Prop[c17Case]{
+		Name: "C17/higher",
+		Rule: "one call of a builtin that runs callbacks: peach with &num-workers 1..4/32/inf, peach, each, keep-if, order &key / &less-than, run-parallel with 1..4 functions, peach nesting each; callbacks from the closure pool (output, throw, break, continue, return, wrong arity, wrong output count); 0..100 inputs as a list or from a pipeline (more inputs than workers, more values than a channel buffer); optionally followed by | nop, | take 1, | fail, captured as an exception, or run three times in a loop; non-trivial = every case",
+		Gen:  func(t *rapid.T) c17Case { return c17G{t}.higher() },
+		Check: c17Check, Class: c17Class,
+		Quick: 1500, Thorough: 10000,
+		Timeout: 90 * time.Second,
 	})
 	vs.Register(vs.Prop[c17Case]{
 		Name: "C17/edit",
